@@ -583,9 +583,12 @@ pub struct Decorated {
 
 impl Decorated {
     pub fn new(label: &str, bases: Vec<Case>, k: usize, rich: bool, filter: &dyn Fn(&Deco) -> bool) -> Self {
+        Self::new_with(label, bases, k, rich, &|_, d| filter(d))
+    }
+    pub fn new_with(label: &str, bases: Vec<Case>, k: usize, rich: bool, filter: &dyn Fn(&Case, &Deco) -> bool) -> Self {
         let menus: Vec<Vec<Deco>> = bases
             .iter()
-            .map(|c| menu(&c.u, rich).into_iter().filter(|d| filter(d)).collect())
+            .map(|c| menu(&c.u, rich).into_iter().filter(|d| filter(c, d)).collect())
             .collect();
         let mut cum = vec![0u64];
         for m in &menus {
@@ -784,13 +787,47 @@ pub fn soft_skeletons() -> Vec<Case> {
             let mut c = sk.clone();
             let z = c.u.add_name("z");
             let z1 = c.u.add_solv(z, 1);
-            let _z2 = c.u.add_solv(z, 2);
+            let z2 = c.u.add_solv(z, 2);
+            c.u.add_vset(z, &[z1, z2]);
+            c.u.add_vset(z, &[z1]);
             if v != u32::MAX {
                 c.u.solvs[z1 as usize].deps.push_req(Req::Single(v));
             }
             c.tag = format!("{}+z(v{})", sk.tag, v as i64);
-            out.push(c);
+            out.push(c.clone());
+            // back-reference variant: the first-ranked candidate of what z=1 requires requires z again,
+            // so z's package is fetched while z=1 is already decided
+            if v != u32::MAX {
+                let mut m = c.u.vsets[v as usize].members.clone();
+                m.sort_by_key(|&s| c.u.solvs[s as usize].rank);
+                if let Some(&first) = m.first() {
+                    let zall = c.u.vset(z, &[z1, z2]);
+                    c.u.solvs[first as usize].deps.push_req(Req::Single(zall));
+                    c.tag = format!("{}+backref", c.tag);
+                    out.push(c);
+                }
+            }
         }
+    }
+    // a soft solvable of an otherwise unreferenced package whose two requirements can only be
+    // refuted by a conflict one decision level deeper (its literal ends up in a learnt clause)
+    {
+        let (u, p, _) = mini(
+            &[
+                ("c", 1, &[]),
+                ("c", 2, &[]),
+                ("a", 1, &["c 2"]),
+                ("a", 2, &["c 2"]),
+                ("b", 1, &["c 1"]),
+                ("b", 2, &["c 1"]),
+                ("d", 1, &[]),
+                ("z", 1, &["a *", "b *"]),
+                ("z", 2, &["a *"]),
+            ],
+            &["d *"],
+            &[],
+        );
+        out.push(Case { u, p, tag: "soft-learn".into() });
     }
     out
 }
@@ -930,5 +967,24 @@ mod tests {
             assert!(seen.insert(s));
         }
         assert_eq!(seen.len(), 35);
+    }
+}
+
+/// F5 menu: flags on any solvable, plus requirements/constrains that start at a
+/// z solvable or point at package z (z is the last package of a soft skeleton).
+pub fn f5_filter(c: &Case, d: &Deco) -> bool {
+    let z = (c.u.names.len() - 1) as Id;
+    let is_z_solv = |s: &Id| c.u.solvs[*s as usize].name == z;
+    let vs_is_z = |v: &VsSpec| match v {
+        VsSpec::Id(i) => c.u.vsets[*i as usize].name == z,
+        VsSpec::Empty(n) => *n == z,
+        VsSpec::Missing => false,
+    };
+    match d {
+        Deco::Soft(_) | Deco::Exclude(..) | Deco::Lock(_) | Deco::Unknown(_) | Deco::Hint(..) => true,
+        Deco::Favor(_) => false,
+        Deco::AddReq(Src::Solv(s), v) | Deco::AddCons(Src::Solv(s), v) => is_z_solv(s) != vs_is_z(v) && !matches!(v, VsSpec::Missing),
+        Deco::AddReq(Src::Root, _) | Deco::AddCons(Src::Root, _) => false,
+        Deco::AddUnion(..) => false,
     }
 }
